@@ -10,8 +10,8 @@
 (***************************************************************************)
 EXTENDS ZincWrite, Json, ZwCat
 
-Fields == <<"num", "esc", "frac", "dt", "coord", "sep", "nl", "mark", "list", "empty", "gap", "fin">>
-OneOff == {[DefaultStyle EXCEPT ![Fields[f]] = k] : f \in 1..Len(Fields), k \in 1..4}
+Fields == <<"num", "esc", "frac", "dt", "coord", "sep", "nl", "mark", "list", "empty", "gap", "fin", "ng">>
+OneOff == {[DefaultStyle EXCEPT ![Fields[f]] = k] : f \in 1..Len(Fields), k \in 1..5}
 Legal(sty) == \A f \in 1..Len(Fields) : sty[Fields[f]] <= StyleRanges[Fields[f]]
 Styles == {s \in OneOff : Legal(s)} \cup {ExtraStyles[i] : i \in 1..Len(ExtraStyles)}
 
